@@ -207,6 +207,39 @@ class Ctx:
         self.tlc_cmds.append("%d x tlc -workers 1 %s (sharded)" % (len(jobs), jobs[0][0] + ".tla" if jobs else ""))
         return outs
 
+    def judge(self, module, rows, tag, per_shard=4000, max_shards=16, timeout=1800, extra_files=()):
+        """Trace validation: write rows (each with a unique 'id') as obs.ndjson shards, run the TLA+ judge
+        module on each, and return {id: sorted(failed clauses)} for the rows TLC rejects."""
+        if not rows:
+            return {}
+        shards = max(1, min(max_shards, len(rows) // per_shard + 1))
+        jobs = []
+        for k in range(shards):
+            d = self.spec_dir("%s-judge%d" % (tag, k))
+            write_ndjson(os.path.join(d, "obs.ndjson"), rows[k::shards])
+            for src in extra_files:
+                shutil.copy(src, d)
+            jobs.append((module, module + ".cfg", d))
+        self.tlc_parallel(jobs, timeout=timeout)
+        failed, n = {}, 0
+        for k in range(shards):
+            v = load_json(os.path.join(self.path("%s-judge%d" % (tag, k)), "verdict.json"))
+            n += v["n"]
+            for f in v["failed"]:
+                failed[f["id"]] = sorted(f["clauses"])
+        if n != len(rows):
+            raise CheckError("%s judged %d observations, %d were written" % (module, n, len(rows)))
+        self.traces_validated = getattr(self, "traces_validated", 0) + n
+        return failed
+
+    def cross_check(self, rows, quick_failed, tla_failed):
+        """The driver-side equality/table judge and the TLA+ judge must agree on every row both saw."""
+        for o in rows:
+            a, b = sorted(quick_failed.get(o["id"], [])), sorted(tla_failed.get(o["id"], []))
+            if a != b:
+                raise CheckError("driver-side comparison and TLA+ judge disagree on %s: %s vs %s"
+                                 % (json.dumps(o)[:800], a, b))
+
     # ------------------------------------------------------- verdict handling
     def violation(self, what, replay_obj):
         self.violations.append((what, replay_obj))
